@@ -210,9 +210,28 @@ def apply_host(op, val, host):
                 path_host(x[1].path, host)
 
 
+QUERY_OPS = ('OpenQueryInstances', 'PullInstances', 'IterQueryInstances')
+
+
+def _strip_paths(v):
+    """n4: query results are not addressable instances.  They travel as
+    INSTANCE elements without path; what the direct path returns depends on
+    the query engine plugged into the mock (here a stub), so the paths of
+    query results are not compared."""
+    if isinstance(v, CIMInstance):
+        v.path = None
+    elif isinstance(v, (list, tuple)):
+        for x in v:
+            _strip_paths(x)
+    elif hasattr(v, 'instances'):
+        _strip_paths(v.instances)
+
+
 def comparable(op, val, host):
     """Normalised deep copy of an operation result, context ids removed."""
     v = copy.deepcopy(val)
+    if op in QUERY_OPS:
+        _strip_paths(v)
     ctx = None
     if hasattr(v, 'eos') and hasattr(v, 'context'):
         ctx = v.context
@@ -328,6 +347,9 @@ def execute(plan):
         conn_d = mg.fresh_conn(model, **kw)
         opgen.register_echo(conn_d, model)
         conn_s = mg.fresh_conn(model)
+        # the same stub query engine on both replicas
+        mg.enable_query(conn_s)
+        mg.enable_query(conn_d)
         opgen.register_echo(conn_s, model)
         server = wbemserver.SimWBEMServer(conn_s)
         lossy = _Lossy(server, (plan.get('lost_reply') or {}).get('how'))
@@ -480,7 +502,15 @@ def execute(plan):
                         where = ' first difference at char %d: wire %r / ' \
                             'direct %r' % (k, sa[max(0, k - 60):k + 80],
                                            sb[max(0, k - 60):k + 80])
-                    viol('repository-differs',
+                    crsig = 'repository-differs'
+                    if len(dw) == len(dd) and all(
+                            x == y or (x[:2] == y[:2] and
+                                       str(x[2]).replace('\r', '\n') ==
+                                       str(y[2]).replace('\r', '\n'))
+                            for x, y in zip(dw, dd)):
+                        # the open known finding, seen in the stored data
+                        crsig = 'cr-normalised-to-lf'
+                    viol(crsig,
                          'after the program the replicas differ:%s only-wire='
                          '%s only-direct=%s' % (where, _short(a, 600),
                                                 _short(b, 600)))
